@@ -151,6 +151,83 @@ theorem db_changes_only_via :
     storeSites.all (fun s => allowedSites.any fun a => a.1 == s.1 && a.2.1 == s.2.1) = true := by
   decide
 
+/-! #### the facts, tied to the model: every mutator call site IS one of the model's transitions -/
+
+/-- how a node's database can move, in the routing model's terms -/
+inductive NodeStep : Db → Db → Prop where
+  | applyExecute (db : Db) (texts : List Text) : NodeStep db (dbExecute db texts).db   -- committed EXECUTE entry
+  | applyRequest (db : Db) (texts : List Text) : NodeStep db (dbRequest db texts).db   -- committed EXECUTE_QUERY entry
+  | applyQuery (db : Db) (texts : List Text) : NodeStep db (dbQuery db texts).db       -- committed QUERY entry (strong read)
+  | replace (db db' : Db) : NodeStep db db'      -- load entry / snapshot install / boot: the file is swapped
+  | maintenance (db : Db) : NodeStep db db       -- VACUUM / PRAGMA optimize: same logical content
+
+inductive StepKind where
+  | applyExecute | applyRequest | applyLoad | applyEntry | restore | boot | maintenance
+deriving Repr, DecidableEq
+
+/-- which transition a call site of package store performs -/
+def siteKind : String × String × String → Option StepKind
+  | ("command_processor.go", "Process", "db.Execute") => some .applyExecute
+  | ("command_processor.go", "Process", "db.Request") => some .applyRequest
+  | ("command_processor.go", "Process", "db.Swap") => some .applyLoad
+  | ("store.go", "fsmApply", "s.cmdProc.Process") => some .applyEntry
+  | ("state.go", "recoverNode", "cmdProc.Process") => some .applyEntry
+  | ("store.go", "fsmRestore", "s.db.Swap") => some .restore
+  | ("store.go", "ReadFrom", "s.db.Swap") => some .boot
+  | ("store.go", "Vacuum", "s.db.Vacuum") => some .maintenance
+  | ("store.go", "doAutoOptimize", "s.db.Optimize") => some .maintenance
+  | _ => none
+
+/-- the model transition(s) a kind stands for -/
+def StepKind.allows : StepKind → Db → Db → Prop
+  | .applyExecute, a, b => ∃ texts, b = (dbExecute a texts).db
+  | .applyRequest, a, b => ∃ texts, b = (dbRequest a texts).db
+  | .applyLoad, _, _ => True
+  | .applyEntry, a, b => NodeStep a b
+  | .restore, _, _ => True
+  | .boot, _, _ => True
+  | .maintenance, a, b => b = a
+
+theorem kind_is_a_step (k : StepKind) (a b : Db) (h : k.allows a b) : NodeStep a b := by
+  cases k <;> simp only [StepKind.allows] at h
+  · obtain ⟨t, ht⟩ := h; subst ht; exact .applyExecute _ t
+  · obtain ⟨t, ht⟩ := h; subst ht; exact .applyRequest _ t
+  · exact .replace a b
+  · exact h
+  · exact .replace a b
+  · exact .replace a b
+  · subst h; exact .maintenance _
+
+/-- EXACTLY these call sites exist (regenerated from the sources on every run): a new call of a
+database-mutating method anywhere in package store - also inside an already allowed function -
+or a removed one changes `storeSites` and breaks this proof; and each of them is one of the
+model's transitions. -/
+theorem mutator_sites_are_model_steps :
+    storeSites.map siteKind =
+      [some .applyExecute, some .applyRequest, some .applyLoad, some .applyLoad, some .applyEntry,
+       some .boot, some .maintenance, some .applyEntry, some .restore, some .maintenance] ∧
+    ∀ s ∈ storeSites, ∃ k, siteKind s = some k ∧ ∀ a b, k.allows a b → NodeStep a b := by
+  refine ⟨by decide, ?_⟩
+  intro s hs
+  have hall : storeSites.all (fun s => (siteKind s).isSome) = true := by decide
+  have := List.all_eq_true.mp hall s hs
+  cases hk : siteKind s with
+  | none => simp [hk] at this
+  | some k => exact ⟨k, rfl, fun a b => kind_is_a_step k a b⟩
+
+/-- the read paths are not among them: serving a query-endpoint request, or a unified request
+without read-write texts below level strong, moves the database nowhere - and when a unified
+request does go through the log, what it does is the `applyRequest` transition -/
+theorem reads_take_no_step (lv : Level) (db : Db) (texts : List Text) :
+    (storeQuery lv db texts).db = db ∧
+    (nRW texts = 0 → lv ≠ .strong → (storeRequest lv db texts).db = db) ∧
+    NodeStep db (storeRequest lv db texts).db := by
+  refine ⟨rfl, fun h0 hl => (ro_classified_runs_on_ro_capable_conn lv db texts h0 hl).2, ?_⟩
+  unfold storeRequest
+  split
+  · exact .applyQuery db texts
+  · exact .applyRequest db texts
+
 /-- http/ and cluster/ touch package db only for pure helpers - they reach the database through
 the Store -/
 theorem outside_packages_do_not_open_the_database :
